@@ -223,16 +223,28 @@ func checkURLPrefixChains(p *Program, r *Report) {
 			isTRU := guardHas(alt.Guards, func(a Atom) bool { v, ok := scEquals(a); return ok && v == truVal && a.Pol })
 			notTRU := guardHas(alt.Guards, func(a Atom) bool { v, ok := scEquals(a); return ok && v == truVal && !a.Pol })
 			qfSet, qfPol, hasQF := "", false, false
+			qfDecoded := false
 			for _, a := range alt.Guards {
 				if s, ok := containsAnyOn(a); ok {
 					qfSet, qfPol, hasQF = s, a.Pol, true
+					a.E.Args[0].Walk(func(x *Expr) bool {
+						if x.Op == "call" && x.CalleeName() == "html.UnescapeString" {
+							qfDecoded = true
+						}
+						return true
+					})
 				}
 			}
 			if !hasQF {
 				// no single Contains-style guard: decide from the language of prefixes that reach this return
 				if pol, ok := prefixClassByLanguage(p, alt); ok {
 					qfSet, qfPol, hasQF = "#?", pol, true
+					qfDecoded = prefixClassDecoded
 				}
+			}
+			if notTRU && hasQF {
+				// the browser sees the decoded prefix: '?' and '#' written as character references count
+				r.Check(qfDecoded, rule, c+":class-on-decoded-prefix", pos, "whether the data lies in the query or fragment is decided on the character-reference-decoded prefix", "whether the data lies in the query or fragment is decided on the raw attribute text: a prefix that writes '?' or '#' as a character reference (&quest;, &#35;) puts the data into the query or fragment although it is only normalised, so it can add parameters or start a fragment — "+`<a href="/x&quest;q={{.Z}}">`)
 			}
 			coversQF := strings.Contains(qfSet, "#") && strings.Contains(qfSet, "?")
 			switch {
@@ -333,6 +345,9 @@ func isValidatorWrapperNil(pv *Prov, a Atom) bool {
 // prefixClassByLanguage evaluates the path condition of a chain return as a language over the
 // static attribute-value prefix (the loads of c.attr.value in that function). It reports
 // (true, true) when every such prefix contains '#' or '?', (false, true) when none does.
+// prefixClassDecoded: the last class decided by language was decided on the decoded prefix.
+var prefixClassDecoded bool
+
 func prefixClassByLanguage(p *Program, alt chainAlt) (bool, bool) {
 	fn := alt.Ret.Parent()
 	regs, _ := p.AllRegexes()
@@ -376,7 +391,16 @@ func prefixClassByLanguage(p *Program, alt chainAlt) (bool, bool) {
 	}
 	per, ok := splitByParam(cond)
 	if !ok || per[0] == nil {
-		return false, false
+		// conditions on the decoded prefix are about a term of their own
+		per2, _ := splitByParam(cond)
+		k := Term{Param: 0, Unesc: true}.Key()
+		if per2[k] == nil {
+			return false, false
+		}
+		per = map[int]*Form{0: per2[k]}
+		prefixClassDecoded = true
+	} else {
+		prefixClassDecoded = false
 	}
 	L := NewLang()
 	if err := registerSumm(L, s, cond); err != nil {
